@@ -341,6 +341,26 @@ fn f64_block(h: &mut H) {
 		if !Action::from(v).is_none() {
 			sink.push("from-f64/nan", "f64:nan".into(), format!("from(NaN) = {}", show(Action::from(v))));
 		}
+		// every entry point of the conversion: Option<f64>, Option<f32>, references
+		let via: [(&str, Action); 4] = [("Some(f64)", Some(v).into()), ("Some(f32)", Some(v as f32).into()), ("&f64", Action::from(&v)), ("&f32", Action::from(&(v as f32)))];
+		for (nm, a) in via {
+			if !a.is_none() {
+				sink.push("from-f64/nan-through-other-entry-point", format!("{nm}: NaN"), format!("= {}", show(a)));
+			}
+		}
+	}
+	// beyond +-1 and at the infinities through the Option / reference entry points
+	for v in [1.0f64, -1.0, 1.0000000000000002, -1.5, 2.0, -255.0, 1e300, -1e300, f64::INFINITY, f64::NEG_INFINITY, f64::MAX, f64::MIN_POSITIVE, -f64::MIN_POSITIVE, 5e-324, -0.0, 0.0] {
+		cases += 1;
+		let a = Action::from(v);
+		let via: [(&str, Result<Action, PanicInfo>); 3] = [("Some(f64)", catch(|| -> Action { Some(v).into() })), ("Some(f32)", catch(|| -> Action { Some(v as f32).into() })), ("&f64", catch(|| Action::from(&v)))];
+		for (nm, r) in via {
+			match r {
+				Ok(o) if same(o, a) || nm == "Some(f32)" && same(o, Action::from(v as f32)) => {}
+				Ok(o) => sink.push("from-f64/entry-points-disagree", format!("{nm}: {v:e}"), format!("{} vs from(f64) = {}", show(o), show(a))),
+				Err(p) => sink.push("from-f64/entry-point-panics", format!("{nm}: {v:e}"), p.msg),
+			}
+		}
 	}
 	let none: Option<f64> = None;
 	if !Action::from(none).is_none() || !Action::from(None::<f32>).is_none() || !Action::from(None::<i8>).is_none() || !Action::default().is_none() {
